@@ -312,7 +312,26 @@ impl Property for C18 {
     }
     fn strategy(&self, _tier: Tier) -> BoxedStrategy<C18Case> {
         (0usize..=6, 0u8..4, proptest::collection::vec((any::<u16>(), any::<u16>(), any::<u16>()), 0..=7), any::<u16>())
-            .prop_map(|(l, ctor, raw, flags)| {
+            .prop_map(|(l, ctor, raw, flags)| c18_from_raw(l, ctor, raw, flags))
+            .boxed()
+    }
+    fn enumerate(&self, _tier: Tier) -> Option<(String, Box<dyn Iterator<Item = C18Case> + Send>)> {
+        Some(enumerate_grid())
+    }
+    fn check(&self, case: &C18Case) -> Check {
+        if case.f32 {
+            run::<f32>(case)
+        } else {
+            run::<f64>(case)
+        }
+    }
+}
+
+/// the pure construction behind the strategy (also used by the fuzz target)
+pub fn c18_from_raw(l: usize, ctor: u8, raw: Vec<(u16, u16, u16)>, flags: u16) -> C18Case {
+    {
+        {
+            {
                 let calls = raw
                     .into_iter()
                     .map(|(sel, a, b)| match pick(sel, 5) {
@@ -326,17 +345,7 @@ impl Property for C18 {
                     })
                     .collect();
                 C18Case { l, ctor, calls, hand: flags & 1 == 1, f32: flags & 6 == 6, near_collision: flags & 8 == 8 }
-            })
-            .boxed()
-    }
-    fn enumerate(&self, _tier: Tier) -> Option<(String, Box<dyn Iterator<Item = C18Case> + Send>)> {
-        Some(enumerate_grid())
-    }
-    fn check(&self, case: &C18Case) -> Check {
-        if case.f32 {
-            run::<f32>(case)
-        } else {
-            run::<f64>(case)
+            }
         }
     }
 }
